@@ -13,7 +13,7 @@
 //   2 (schedule) obs::sched_restart (engine/obs_restart.hpp) of the restarted Schedule equals that of the
 //                original Schedule at n and every later report step.
 //
-// Case string (= --replay argument):  M:<18 model digits, '.'-separated> [H:<whistctl.X1role.X1event.eventblock>] U:<0..3> F:<0|1> X:<0|1> D:<0|1> N:<1..3>
+// Case string (= --replay argument):  M:<18 model digits, '.'-separated> [H:<whistctl.X1role.X1event.eventblock>] [R:<final-only>:<body.step,...>] U:<0..3> F:<0|1> X:<0|1> D:<0|1> N:<1..3>
 #include "vf.hpp"
 #include "canon.hpp"
 #include "obs.hpp"
@@ -73,14 +73,19 @@ static const char* H_WHCTL[4] = {"", "ORAT", "LRAT", "RESV"};
 struct Model {
     int d[NDIM] = {0};
     int h[4] = {0, 0, 0, 0};
+    // Run-time history (part C): ACTIONX bodies B1..B6 applied with Schedule::applyAction on the ONE original Schedule object
+    // between the restart writes.  rt = sequence of (body 1..6, report step at which it triggers); rt_final_only = 1: only the
+    // final restart file is written (no intermediate writes that fill the lazily built caches)
+    bool rt_on = false; int rt_final_only = 0; std::vector<std::pair<int, int>> rt;
+    std::string rtstr() const { std::string s = std::to_string(rt_final_only) + ":"; for (size_t i = 0; i < rt.size(); ++i) s += (i ? "," : "") + std::to_string(rt[i].first) + "." + std::to_string(rt[i].second); return s; }
     int x1_water = 0;     // replay-only (token W:1): X1 declared with WELSPECS preferred phase WATER instead of OIL, see run.assumptions
     std::string hstr() const { return std::to_string(h[0]) + "." + std::to_string(h[1]) + "." + std::to_string(h[2]) + "." + std::to_string(h[3]); }
     std::string str() const { std::string s; for (int i = 0; i < NDIM; ++i) s += (i ? "." : "") + std::to_string(d[i]); return s; }
-    std::string describe() const { std::string s; for (int i = 0; i < NDIM; ++i) if (d[i]) s += std::string(s.empty() ? "" : ",") + DIM_NAME[i] + "=" + std::to_string(d[i]); if (h[0] || h[1] || h[2] || h[3]) s += std::string(s.empty() ? "" : ",") + "whistctl/X1role/X1event/eventblock=" + hstr(); return s.empty() ? "default" : s; }
+    std::string describe() const { std::string s; for (int i = 0; i < NDIM; ++i) if (d[i]) s += std::string(s.empty() ? "" : ",") + DIM_NAME[i] + "=" + std::to_string(d[i]); if (rt_on) s += std::string(s.empty() ? "" : ",") + "runtime=" + rtstr(); if (h[0] || h[1] || h[2] || h[3]) s += std::string(s.empty() ? "" : ",") + "whistctl/X1role/X1event/eventblock=" + hstr(); return s.empty() ? "default" : s; }
 };
 struct Case {
     Model m; int us = 0, fmt = 0, unif = 1, dbl = 0, n = 2;
-    std::string str() const { return "M:" + m.str() + " H:" + m.hstr() + (m.x1_water ? " W:1" : "") + " U:" + std::to_string(us) + " F:" + std::to_string(fmt) + " X:" + std::to_string(unif) + " D:" + std::to_string(dbl) + " N:" + std::to_string(n); }
+    std::string str() const { return "M:" + m.str() + " H:" + m.hstr() + (m.x1_water ? " W:1" : "") + (m.rt_on ? " R:" + m.rtstr() : "") + " U:" + std::to_string(us) + " F:" + std::to_string(fmt) + " X:" + std::to_string(unif) + " D:" + std::to_string(dbl) + " N:" + std::to_string(n); }
     static Case parse(const std::string& s) {
         Case c; std::istringstream ss(s); std::string tok;
         while (ss >> tok) {
@@ -89,6 +94,11 @@ struct Case {
             if (k == "M") { std::istringstream vs(v); std::string t; int i = 0; while (std::getline(vs, t, '.') && i < NDIM) c.m.d[i++] = std::atoi(t.c_str()); }
             else if (k == "H") { std::istringstream vs(v); std::string t; int i = 0; while (std::getline(vs, t, '.') && i < 4) c.m.h[i++] = std::atoi(t.c_str()); }
             else if (k == "W") c.m.x1_water = std::atoi(v.c_str());
+            else if (k == "R") {
+                c.m.rt_on = true; c.m.rt_final_only = std::atoi(v.c_str());
+                auto q = v.find(':'); std::istringstream vs(q == std::string::npos ? "" : v.substr(q + 1)); std::string t;
+                while (std::getline(vs, t, ',')) { int b = 0, kk = 0; if (std::sscanf(t.c_str(), "%d.%d", &b, &kk) == 2) c.m.rt.push_back({b, kk}); }
+            }
             else if (k == "U") c.us = std::atoi(v.c_str()); else if (k == "F") c.fmt = std::atoi(v.c_str()); else if (k == "X") c.unif = std::atoi(v.c_str());
             else if (k == "D") c.dbl = std::atoi(v.c_str()); else if (k == "N") c.n = std::atoi(v.c_str());
             else throw std::runtime_error("bad case key " + k);
@@ -106,7 +116,7 @@ static std::string head_text(int us, int fmt, int unif, int restart_n) {
     if (fmt) s += "FMTOUT\nFMTIN\n";
     if (unif) s += "UNIFOUT\nUNIFIN\n";
     s += "TABDIMS\n 1 1 20 20 3 20 /\nEQLDIMS\n 1 /\nREGDIMS\n 3 /\nWELLDIMS\n 6 4 4 6 /\nWSEGDIMS\n 2 8 3 /\n"
-         "UDQDIMS\n 10 10 4 4 4 4 4 4 4 4 4 /\nUDADIMS\n 10 1* 10 /\nACTDIMS\n 4 10 /\nNETWORK\n 5 4 /\nSTART\n 1 JAN 2020 /\n"
+         "UDQDIMS\n 10 10 4 4 4 4 4 4 4 4 4 /\nUDADIMS\n 10 1* 10 /\nACTDIMS\n 8 10 /\nNETWORK\n 5 4 /\nSTART\n 1 JAN 2020 /\n"
          "GRID\nDX\n 27*100 /\nDY\n 27*100 /\nDZ\n 27*10 /\nTOPS\n 9*2000 /\nPORO\n 27*0.3 /\nPERMX\n 27*100 /\nPERMY\n 27*50 /\nPERMZ\n 27*10 /\n"
          "ACTNUM\n 13*1 0 13*1 /\nPROPS\n"
          "SWOF\n 0.2 0 1 0.4\n 0.5 0.3 0.2 0.1\n 1.0 1.0 0.0 0.0 /\nSGOF\n 0.0 0 1 0\n 0.4 0.4 0.1 0.2\n 0.8 1.0 0.0 0.5 /\n"
@@ -166,6 +176,18 @@ static std::string schedule_text(const Model& M, int restart_n) {
     else if (d[D_EFAC] == 2) s += "WEFAC\n 'P1' 0.5 /\n 'I1' 0.75 /\n/\nGEFAC\n 'G1' 0.25 /\n 'G3' 0.5 /\n/\n";
     if (d[D_WLIST] == 0) s += "WLIST\n '*L1' NEW P1 P2 /\n '*L2' NEW I1 /\n/\n";
     if (d[D_UDQ] != 2) s += "UDQ\n ASSIGN WUOR 95 /\n ASSIGN FUX 3.5 /\n ASSIGN FUGO 1000 /\n ASSIGN WUIR 200 /\n DEFINE GUY GOPR * 2 /\n DEFINE FUY FOPR * 2 + 1 /\n DEFINE WUZ WOPR + WWPR /\n UNITS WUOR SM3/DAY /\n/\n";
+    if (M.rt_on) {
+        s += "UDQ\n ASSIGN WUO2 77 /\n ASSIGN WUI2 180 /\n ASSIGN WUWR 60 /\n/\n";
+        static const char* BODY[6] = {
+            "WCONPROD\n 'P1' OPEN ORAT 88 4* 50 /\n/\n",                 // B1: a number replaces the UDA target
+            "WCONPROD\n 'P1' OPEN ORAT WUO2 4* 50 /\n/\n",               // B2: another UDA replaces the UDA target
+            "WCONINJE\n 'I1' WATER OPEN RATE WUI2 1* 500 /\n/\n",        // B3: same for the injector
+            "WELTARG\n 'P1' ORAT 70 /\n/\n",                             // B4: WELTARG number on a UDA-controlled well
+            "WELOPEN\n 'P2' SHUT /\n/\n",                                // B5: no UDA involved
+            "WCONPROD\n 'P2' OPEN ORAT WUOR WUWR 3* 55 /\n/\n",          // B6: UDAs (same item as P1, and a new item) on a well that had none
+        };
+        for (int b = 0; b < 6; ++b) s += "ACTIONX\n B" + std::to_string(b + 1) + " 4 /\n FOPR > 0 /\n/\n" + BODY[b] + "ENDACTIO\n";
+    }
     if (d[D_ACT] != 2) s += std::string("ACTIONX\n A1 2 /\n WOPR 'P1' > 0 AND /\n ") + (d[D_ACT] == 3 ? "FWCT > 0.0000025" : "FWCT < 0.95") + " /\n/\nWELTARG\n '?' BHP 60 /\n/\nENDACTIO\n";
     if (d[D_NET] == 0) s += "BRANPROP\n 'G1' 'FIELD' 9999 /\n 'G2' 'FIELD' 9999 /\n/\nNODEPROP\n 'FIELD' 20 /\n 'G1' 1* NO /\n 'G2' 1* NO /\n/\n";
     s += std::string("DATES\n 1 ") + MONTHS[0] + " 2020 /\n/\n";
@@ -181,6 +203,7 @@ static std::string schedule_text(const Model& M, int restart_n) {
         }
         s += std::string(" 'P2' OPEN ORAT 85 4* 55 ") + (d[D_VFP] == 1 ? "15 3 0.5 " : "") + "/\n/\n";
         if (d[D_INJ] == 0 && d[D_UDQ] == 0) s += "WCONINJE\n 'I1' WATER OPEN RATE WUIR 1* 500 /\n/\n";
+        if (M.rt_on) s += "WCONPROD\n 'P3' STOP ORAT WUOR 4* 35 /\n/\n";      // a second well with a UDA on the same control item as P1
     }
     switch (d[D_GCTL]) {
     case 0: s += std::string("GCONPROD\n 'G1' ORAT ") + (d[D_UDQ] == 0 ? "FUGO" : "1000") + " 2* 1500 RATE /\n/\nGCONINJE\n 'G2' WATER RATE 500 /\n/\n"; break;
@@ -389,21 +412,15 @@ static Outcome run_case(const Case& c) {
         const auto deck = g_parser->parseString(head_text(c.us, c.fmt, c.unif, 0) + schedule_text(M, 0));
         sched = std::make_unique<Schedule>(deck, es, g_python);
         if ((int)sched->size() != NSTEPS + 1) throw std::logic_error("model has " + std::to_string(sched->size()) + " report steps");
-        Action::State astate;
+        Action::State astate;          // the record as it stands "now"; runs are added in time order below
         const bool action_runs = (M.d[D_ACT] == 0 || M.d[D_ACT] == 3) && n >= 2;
+        const auto a1_match = Action::Result{true}.wells(std::vector<std::string>{"P1"});
         if (action_runs) {
-            // the action triggered at the end of the time step that reaches report step 1, matching well P1
-            const auto& act = (*sched)[1].actions()["A1"];
-            auto res = Action::Result{true}.wells(std::vector<std::string>{"P1"});
-            sched->applyAction(1, act, res.matches(), std::unordered_map<std::string, double>{});
-            astate.add_run((*sched)[1].actions()["A1"], sched->simTime(1), res);
-            if (n >= 3) {       // ... and a second time (max_run = 2) one report step later
-                sched->applyAction(2, (*sched)[2].actions()["A1"], res.matches(), std::unordered_map<std::string, double>{});
-                astate.add_run((*sched)[2].actions()["A1"], sched->simTime(2), res);
-            }
+            // A1 triggers at the end of the time step that reaches report step 1, matching well P1, and (max_run = 2) once more one
+            // report step later; its effect on the Schedule is applied here, the run records are added when their time comes
+            sched->applyAction(1, (*sched)[1].actions()["A1"], a1_match.matches(), std::unordered_map<std::string, double>{});
+            if (n >= 3) sched->applyAction(2, (*sched)[2].actions()["A1"], a1_match.matches(), std::unordered_map<std::string, double>{});
         }
-        Action::State astate_after_1;      // the record as it stood when report step 2 was written
-        if (action_runs) astate_after_1.add_run((*sched)[1].actions()["A1"], sched->simTime(1), Action::Result{true}.wells(std::vector<std::string>{"P1"}));
         stage = "summary-eval";
         SummaryConfig sc(deck, *sched, es.fieldProps(), es.aquifer());
         const auto& grid = es.getInputGrid();
@@ -429,7 +446,20 @@ static Outcome run_case(const Case& c) {
                 for (const auto& a : ARRS) { std::vector<double> v(nact); for (int i = 0; i < nact; ++i) v[i] = arr_value(a, i, k); sol.insert(a.name, a.m, v, a.target); }
                 RestartValue rv(sol, wells, grp, {});
                 for (const auto& x : EXTRAS) { std::vector<double> v(x.size); for (int i = 0; i < x.size; ++i) v[i] = extra_value(x, i, k); rv.addExtra(x.name, x.m, v); }
-                io.writeTimeStep(k >= 3 ? astate : k == 2 ? astate_after_1 : Action::State{}, wtest, st, udq, k, false, sched->seconds(k), rv, c.dbl != 0);
+                if (!M.rt_final_only || k == n) io.writeTimeStep(astate, wtest, st, udq, k, false, sched->seconds(k), rv, c.dbl != 0);
+                if (k < n) {
+                    // what happens once report step k is complete: action runs are recorded, run-time bodies are applied to this
+                    // very Schedule object (that is what the simulator continues with)
+                    stage = "applyAction";
+                    if (action_runs && k <= 2) astate.add_run((*sched)[k].actions()["A1"], sched->simTime(k), a1_match);
+                    for (const auto& ev : M.rt) if (ev.second == k) {
+                        const std::string an = "B" + std::to_string(ev.first);
+                        const auto res = Action::Result{true};
+                        sched->applyAction(k, (*sched)[k].actions()[an], res.matches(), std::unordered_map<std::string, double>{});
+                        astate.add_run((*sched)[k].actions()[an], sched->simTime(k), res);
+                        R->count("runtime_applications");
+                    }
+                }
             }
         }
         // ------------------------------------------------ restarted run
@@ -584,20 +614,18 @@ static Outcome run_case(const Case& c) {
                 if (st.has_well_var(wn, f)) { if (!st2.has_well_var(wn, f)) fail(o, "dyn:udq.well.summary", K + " missing in the loaded SummaryState"); else cmp_num(o, "dyn:udq.well.summary", K, st.get_well_var(wn, f), st2.get_well_var(wn, f), TOL_SAME); }
             }
         }
-        // ACTIONX run records
-        if (M.d[D_ACT] != 2) {
-            const auto& a1 = (*sched)[n].actions()["A1"];
-            if (!(*rsched)[n].actions().has("A1")) fail(o, "dyn:actionx.missing", "action A1 unknown to the restarted schedule");
-            else {
-                const auto& a2 = (*rsched)[n].actions()["A1"];
-                const auto c1 = astate.run_count(a1), c2 = astate2.run_count(a2);
-                ++o.compared; o.obs = vf::fnv(&c2, sizeof c2, o.obs);
-                if (c1 != c2) fail(o, "dyn:actionx.run_count", "A1 ran " + std::to_string(c1) + " time(s), loaded state says " + std::to_string(c2));
-                else if (c1 > 0) {
-                    const auto t1 = astate.run_time(a1), t2 = astate2.run_time(a2);
-                    ++o.compared;
-                    if (t1 != t2) fail(o, "dyn:actionx.run_time", "A1 last ran at " + std::to_string((long long)t1) + ", loaded state says " + std::to_string((long long)t2));
-                }
+        // ACTIONX run records (every action of the model)
+        for (const auto& a1 : (*sched)[n].actions()) {
+            const std::string an = a1.name();
+            if (!(*rsched)[n].actions().has(an)) { fail(o, "dyn:actionx.missing", "action " + an + " unknown to the restarted schedule"); continue; }
+            const auto& a2 = (*rsched)[n].actions()[an];
+            const auto c1 = astate.run_count(a1), c2 = astate2.run_count(a2);
+            ++o.compared; o.obs = vf::fnv(&c2, sizeof c2, o.obs);
+            if (c1 != c2) fail(o, "dyn:actionx.run_count", an + " ran " + std::to_string(c1) + " time(s), loaded state says " + std::to_string(c2));
+            else if (c1 > 0) {
+                const auto t1 = astate.run_time(a1), t2 = astate2.run_time(a2);
+                ++o.compared;
+                if (t1 != t2) fail(o, "dyn:actionx.run_time", an + " last ran at " + std::to_string((long long)t1) + ", loaded state says " + std::to_string((long long)t2));
             }
         }
 
@@ -609,8 +637,41 @@ static Outcome run_case(const Case& c) {
             obs::Sweep A, B;
             obs::sched_restart(*sched, k, st, A);
             obs::sched_restart(*rsched, k, st, B);
+            if (g_verbose) for (const auto& x : A.items) if (x.key.compare(0, 3, "UDA") == 0 || x.key.find("/ctl.") != std::string::npos) std::cout << "  sched k=" << k << " orig " << x.key << " = " << (x.num ? vf::fmt17(x.v) : x.s) << "\n";
+            if (g_verbose) for (const auto& x : B.items) if (x.key.compare(0, 3, "UDA") == 0) std::cout << "  sched k=" << k << " rst  " << x.key << " = " << x.s << "\n";
             const std::string when = k == (std::size_t)n ? "" : ":later";
             // a difference already present at n persists: report it once, as the at-n defect
+            // Defect discriminator: the ORIGINAL schedule's UDA table (UDQActive::iuap) lists a control item of a well whose value in
+            // the well is a NUMBER (WELTARG <number> over a UDA target: UDAValue::update_value(number) keeps the old UDQ name, so
+            // UDQActive registers WELTARG_x <- UDQ and keeps WCONPROD_x <- UDQ).  Differences of exactly such an item get the
+            // suffix :number-over-uda.
+            auto hybrid_item = [&](const std::string& key) -> bool {
+                if (key.compare(0, 2, "W:") != 0) return false;
+                const auto sl = key.find('/'); if (sl == std::string::npos) return false;
+                const std::string wn = key.substr(2, sl - 2), item = key.substr(sl + 1);
+                if (!sched->hasWell(wn, k)) return false;
+                const auto& w = sched->getWell(wn, k);
+                const UDAValue* u = nullptr; std::vector<UDAControl> ctl;
+                if (w.isProducer()) {
+                    const auto& p = w.getProductionProperties();
+                    if (item == "ctl.oil_rate") { u = &p.OilRate; ctl = {UDAControl::WCONPROD_ORAT, UDAControl::WELTARG_ORAT}; }
+                    else if (item == "ctl.water_rate") { u = &p.WaterRate; ctl = {UDAControl::WCONPROD_WRAT, UDAControl::WELTARG_WRAT}; }
+                    else if (item == "ctl.gas_rate") { u = &p.GasRate; ctl = {UDAControl::WCONPROD_GRAT, UDAControl::WELTARG_GRAT}; }
+                    else if (item == "ctl.liquid_rate") { u = &p.LiquidRate; ctl = {UDAControl::WCONPROD_LRAT, UDAControl::WELTARG_LRAT}; }
+                    else if (item == "ctl.resv_rate") { u = &p.ResVRate; ctl = {UDAControl::WCONPROD_RESV, UDAControl::WELTARG_RESV}; }
+                    else if (item == "ctl.bhp_limit") { u = &p.BHPTarget; ctl = {UDAControl::WCONPROD_BHP, UDAControl::WELTARG_BHP}; }
+                    else if (item == "ctl.thp_limit") { u = &p.THPTarget; ctl = {UDAControl::WCONPROD_THP, UDAControl::WELTARG_THP}; }
+                } else {
+                    const auto& p = w.getInjectionProperties();
+                    if (item == "ctl.surface_rate") { u = &p.surfaceInjectionRate; ctl = {UDAControl::WCONINJE_RATE, UDAControl::WELTARG_ORAT, UDAControl::WELTARG_WRAT, UDAControl::WELTARG_GRAT}; }
+                    else if (item == "ctl.reservoir_rate") { u = &p.reservoirInjectionRate; ctl = {UDAControl::WCONINJE_RESV, UDAControl::WELTARG_RESV}; }
+                    else if (item == "ctl.bhp_limit") { u = &p.BHPTarget; ctl = {UDAControl::WCONINJE_BHP, UDAControl::WELTARG_BHP}; }
+                    else if (item == "ctl.thp_limit") { u = &p.THPTarget; ctl = {UDAControl::WCONINJE_THP, UDAControl::WELTARG_THP}; }
+                }
+                if (!u || !u->is<double>()) return false;
+                for (const auto& r : (*sched)[k].udq_active.get().iuap()) if (r.wgname == wn) for (auto cc : ctl) if (r.control == cc) return true;
+                return false;
+            };
             auto sfail = [&](const std::string& cls, const std::string& what) {
                 if (!when.empty()) for (auto& f : o.fails) if (f.id == "sched:" + cls) return;
                 fail(o, "sched:" + cls + when, what);
@@ -633,7 +694,7 @@ static Outcome run_case(const Case& c) {
                     }
                 }
                 if (x.num != y.num) { sfail(x.cls, "step " + std::to_string(k) + " " + x.key + ": " + (x.num ? vf::fmt17(x.v) : x.s) + " vs " + (y.num ? vf::fmt17(y.v) : y.s)); continue; }
-                if (x.num) { o.obs = vf::fnv(&y.v, 8, o.obs); if (!obs::num_equal(x.v, y.v, x.p, c.fmt != 0)) sfail(x.cls, "step " + std::to_string(k) + " " + x.key + ": original " + vf::fmt17(x.v) + " restarted " + vf::fmt17(y.v)); }
+                if (x.num) { o.obs = vf::fnv(&y.v, 8, o.obs); if (!obs::num_equal(x.v, y.v, x.p, c.fmt != 0)) sfail(x.cls + (hybrid_item(x.key) ? ":number-over-uda" : ""), "step " + std::to_string(k) + " " + x.key + ": original " + vf::fmt17(x.v) + " restarted " + vf::fmt17(y.v)); }
                 else { o.obs = vf::fnv(y.s, o.obs); if (x.s != y.s) sfail(x.cls, "step " + std::to_string(k) + " " + x.key + ": original [" + x.s.substr(0, 300) + "] restarted [" + y.s.substr(0, 300) + "]"); }
             }
             for (const auto& y : B.items) if (!seen.count(y.key)) sfail(y.cls, "step " + std::to_string(k) + " " + y.key + ": only the restarted schedule answers (" + (y.num ? vf::fmt17(y.v) : y.s) + ")");
@@ -696,6 +757,8 @@ int main(int argc, char** argv) {
                 "W/G/F cumulative totals, UDQState + summary UDQ values, ACTIONX run count/time equal the saved ones (identical for untouched DOUB/INTE, 1e-14 rel after a unit-conversion pair, 1.2e-7 rel for REAL); "
                 "PART B (history control, complete product on the default model): WHISTCTL {none,ORAT,LRAT,RESV} at the top of SCHEDULE x role of an extra well X1 {WCONPROD producer, WCONHIST producer, WCONINJE injector, WCONINJH injector} "
                 "x later event on X1 {none, WCONHIST ORAT, WCONHIST RESV, WCONINJH, WCONPROD LRAT} x restart step n{1,2,3}" + std::string(run.thorough() ? " x event in block {3,2} x 4 unit systems x FMTOUT{0,1}" : " (event in block 3, METRIC, unformatted unified)") + ", same two oracles; "
+                "PART C (run-time history on one Schedule object, default model + ACTIONX B1..B6 {WCONPROD number for a UDA, WCONPROD UDA for a UDA, WCONINJE UDA for a UDA, WELTARG number on a UDA well, WELOPEN SHUT, WCONPROD adding two UDAs}): "
+                "every sequence of 1.." + std::string(run.thorough() ? "3" : "2") + " Schedule::applyAction calls (body, report step < n, steps non-decreasing) interleaved with the restart writes of every report step x {all writes, final write only} x n{2,3}" + std::string(run.thorough() ? " x {METRIC,FIELD}" : "") + "; the reference is the same Schedule object after these calls; "
                 "oracle 2: obs::sched_restart query list equal between Schedule(deck) and Schedule(deck+RESTART+SKIPREST, rst_state) at n..4 (REAL-stored quantities to 1.2e-7 rel)";
     run.assumptions = {
         "a restart file written at report step n describes schedule state n-1 (sim_step); 'flowing well' = Schedule status OPEN in that state",
@@ -752,6 +815,35 @@ int main(int argc, char** argv) {
             }
         }
     }
+    // ---- part C: run-time histories on ONE Schedule object (default model + actions B1..B6)
+    uint64_t rmodels = 0;
+    {
+        const int L = run.thorough() ? 3 : 2, nus = run.thorough() ? 2 : 1;
+        std::vector<std::vector<std::pair<int, int>>> seqs;
+        for (int n = 2; n <= 3 && !stop; ++n) {
+            seqs.clear();
+            // all sequences of 1..L applications (body 1..6, step 1..n-1) with non-decreasing step
+            std::vector<std::vector<std::pair<int, int>>> cur = {{}};
+            for (int len = 1; len <= L; ++len) {
+                std::vector<std::vector<std::pair<int, int>>> nxt;
+                for (const auto& q : cur) for (int k = q.empty() ? 1 : q.back().second; k <= n - 1; ++k) for (int b = 1; b <= 6; ++b) { auto q2 = q; q2.push_back({b, k}); nxt.push_back(q2); }
+                for (const auto& q : nxt) seqs.push_back(q);
+                cur = std::move(nxt);
+            }
+            for (const auto& q : seqs) for (int fo = 0; fo < 2; ++fo) {
+                ++rmodels;
+                for (int us = 0; us < nus; ++us) {
+                    if (!run.mine()) continue;
+                    if (run.timed_out()) { stop = true; break; }
+                    Case c; c.m.rt_on = true; c.m.rt = q; c.m.rt_final_only = fo; c.us = us; c.fmt = 0; c.unif = 1; c.dbl = 0; c.n = n;
+                    judge(c);
+                    if (run.samples.size() < 7 && q.size() == 2 && q[0].first == 1 && q[1].first == 6 && n == 3) run.sample_str(c.str() + "  (" + c.m.describe() + ")");
+                }
+                if (stop) break;
+            }
+        }
+    }
+    if (run.shard == 0) run.count("runtime_history_models", (long long)rmodels);
     if (run.shard == 0) run.count("history_control_models", (long long)hmodels);
     if (run.shard == 0) run.count("models", (long long)models);
     fs::current_path("/"); std::error_code ec; fs::remove_all(dir, ec);
